@@ -137,6 +137,119 @@ def c18_number(n: int) -> bool:
 
 
 # ---------------------------------------------------------------------------------------------
+# Part 2: confinement
+PIDSEL = ('absent', 'own0', 'own1', 'other_watcher', 'unrelated', 'dead', 'zero', 'minus1', 'string_own', 'child_of_own', 'daemon')
+CHILDSEL = ('absent', 'child0', 'grandchild0', 'child_of_other', 'own1', 'unrelated', 'zero', 'string_child')
+STATES = ('active', 'stopped', 'stopping', 'one_killed')
+SIGS = (15, 'usr1', 'SIGHUP', 9, '10')
+
+
+def c18_confinement(cmd: int, ps: int, cs: int, ch: bool, rec: bool, st: int, sg: int) -> bool:
+    """
+    A signal / kill request can only ever signal workers of the NAMED watcher or their descendants, with exactly the
+    designated signal; a refused request signals nobody.
+
+    pre: 0 <= cmd <= 1 and ps == rt.S['ps'] and 0 <= cs < len(CHILDSEL) and 0 <= st < len(STATES) and 0 <= sg < len(SIGS)
+    post: _
+    """
+    from vtlib.harness.scen import World, Beh
+    from vtlib.harness import scen
+    cmd = rt.pick(cmd, 2)
+    ps = rt.pick(ps, len(PIDSEL))
+    cs = rt.pick(cs, len(CHILDSEL))
+    st = rt.pick(st, len(STATES))
+    sg = rt.pick(sg, len(SIGS))
+    with World() as w:
+        k = w.kernel
+        k.behaviour = lambda i, argv: Beh(obey=None, nchildren=1, grandchildren=1, child_obey=None)
+        wa = w.mk_watcher('a', numprocesses=2, graceful_timeout=0.3)
+        wb = w.mk_watcher('b', numprocesses=1, graceful_timeout=0.3)
+        w.boot([wa, wb], check_delay=-1)
+        own = k.alive_pids('a')
+        other = k.alive_pids('b')
+        unrelated = k.add_external(obey=None).pid
+        dead = k.add_external(obey=0.0)
+        k.external_kill(dead.pid)
+        try:
+            if STATES[st] == 'stopped':
+                w.call('stop', name='a', waiting=True, match='simple', max_time=10.0)
+            elif STATES[st] == 'stopping':
+                w.send('stop', name='a', match='simple')        # stubborn workers: the stop is in its grace period
+            elif STATES[st] == 'one_killed':
+                # a worker was just terminated by a kill request: dead and reaped by poll(), its table entry not yet dropped
+                w.call('kill', name='a', pid=own[0], waiting=True, graceful_timeout=0.1, max_time=10.0)
+                w.run_for(0.01)
+            allowed = set()
+            for p in own:
+                allowed.add(p)
+                allowed.update(c.pid for c in k.children_of(p, True))
+            child0 = [c.pid for c in k.children_of(own[0], False)]
+            grand0 = [c.pid for c in k.children_of(own[0], True) if c.pid not in child0]
+            pidv = {'absent': None, 'own0': own[0], 'own1': own[1], 'other_watcher': other[0], 'unrelated': unrelated, 'dead': dead.pid,
+                    'zero': 0, 'minus1': -1, 'string_own': str(own[0]), 'child_of_own': child0[0] if child0 else 1,
+                    'daemon': 1000}[PIDSEL[ps]]
+            childv = {'absent': None, 'child0': child0[0] if child0 else 1, 'grandchild0': grand0[0] if grand0 else 1,
+                      'child_of_other': [c.pid for c in k.children_of(other[0], False)][0], 'own1': own[1], 'unrelated': unrelated, 'zero': 0,
+                      'string_child': str(child0[0]) if child0 else '1'}[CHILDSEL[cs]]
+            props = {'name': 'a'}
+            if pidv is not None:
+                props['pid'] = pidv
+            sig = SIGS[sg]
+            want = spec(sig)
+            n0 = len(k.signal_log)
+            if cmd == 0:
+                props['signum'] = sig
+                if childv is not None:
+                    props['childpid'] = childv
+                if ch:
+                    props['children'] = True
+                if rec:
+                    props['recursive'] = True
+                r = w.call('signal', max_time=5.0, **props)
+            else:
+                props['signum'] = sig
+                props['graceful_timeout'] = 0.2
+                r = w.call('kill', waiting=True, max_time=10.0, **props)
+            added = [s for s in k.signal_log[n0:]]
+            if STATES[st] == 'stopping':
+                # the stop in flight signals too: only entries carrying the requested (distinct) signal are attributed to the request
+                added = [s for s in added if s['sig'] == want and want not in (15, 9)]
+            ok = True
+            for s in added:
+                if s['pid'] not in allowed:
+                    rt.note('%s %r signalled pid %r (signal %r) which is not a worker of watcher a nor a descendant of one', ('signal', 'kill')[cmd],
+                            props, s['pid'], s['sig'])
+                    ok = False
+                if cmd == 0 and s['sig'] != want:
+                    rt.note('signal request for %r delivered signal %r', sig, s['sig'])
+                    ok = False
+                if cmd == 1 and s['sig'] not in (want, 9, 15):
+                    rt.note('kill request with signum %r delivered signal %r', sig, s['sig'])
+                    ok = False
+            if r.replies and r.status == 'error' and added and cmd == 0:
+                if not (PIDSEL[ps] == 'absent' and (ch or childv is not None)):
+                    rt.note('refused signal request %r (%r) nevertheless signalled %r', props, r.reply.get('reason'), [(s['pid'], s['sig']) for s in added])
+                    ok = False
+            # addressed processes do get it (positive control)
+            if cmd == 0 and STATES[st] == 'active' and PIDSEL[ps] == 'own0' and childv is None and not ch and r.status == 'ok':
+                if not [s for s in added if s['pid'] == own[0]]:
+                    rt.note('signal to own worker %r was not delivered', own[0])
+                    ok = False
+            if cmd == 0 and STATES[st] in ('active', 'one_killed') and PIDSEL[ps] == 'absent' and childv is None and not ch:
+                live_now = [p for p in own if k.procs[p].state == 'alive' or
+                            (k.procs[p].die_at is not None and [x for x in added if x['pid'] == p])]
+                live_before = [p for p in own if p in k.alive_pids('a') or [x for x in added if x['pid'] == p]]
+                got_it = sorted(set(s['pid'] for s in added if s['pid'] in own))
+                expect = sorted(p for p in own if not (STATES[st] == 'one_killed' and p == own[0]))
+                if got_it != expect or r.status != 'ok':
+                    rt.note('broadcast signal (%r): reply %r, delivered to %r, live workers of the watcher %r', sig, r.reply.get('status'),
+                            got_it, expect)
+                    ok = False
+            return rt.verdict(ok)
+        except (scen.Diverged, scen.BlockedLoop):
+            return rt.skip()
+
+
 def _cores(tier):
     names = ['TERM', 'KILL', 'HUP', 'INT', 'QUIT', 'USR1', 'USR2', 'CHLD', 'RTMIN', 'RTMAX', 'STOP', 'CLD', 'POLL', 'IOT']
     if tier == 'thorough':
@@ -208,7 +321,44 @@ def _canary_case():
     u.to_signum = k.to_signum = ss.to_signum = to_signum
 
 
+def _canary_signal_any_pid():
+    """send_signal forgets the ownership check"""
+    import circus.watcher as cw
+    import psutil
+
+    def send_signal(self, pid, signum):
+        if pid in self.processes:
+            self.processes[pid].send_signal(signum)
+        else:
+            for w_ in self.arbiter.watchers:
+                if pid in w_.processes:
+                    w_.processes[pid].send_signal(signum)
+    cw.Watcher.send_signal = send_signal
+
+
+def _canary_list_all():
+    """pid-less signal iterates the table instead of the active pids (a reaped entry aborts the broadcast)"""
+    import circus.commands.sendsignal as ss
+    orig = ss.Signal.execute
+
+    def execute(self, arbiter, props):
+        watcher = self._get_watcher(arbiter, props.get('name'))
+        if 'pid' not in props:
+            props = dict(props, pid=None)
+            real = watcher.get_active_pids
+            watcher.get_active_pids = lambda: list(watcher.processes)
+            props.pop('pid')
+            try:
+                return orig(self, arbiter, props)
+            finally:
+                watcher.get_active_pids = real
+        return orig(self, arbiter, props)
+    ss.Signal.execute = execute
+
+
 CANARIES = {
+    'signal_reaches_other_watchers': {'apply': _canary_signal_any_pid, 'conds': ['c18_confinement'], 'shards': [{'ps': 3}],
+                                      'what': 'Watcher.send_signal delivers to a pid owned by another watcher'},
     'unanchored_any_attr': {'apply': _canary_loose, 'conds': ['c18_neighbourhood'],
                             'shards': [{'core': 'TERM'}, {'core': '_IGN'}],
                             'what': 'to_signum with re.match (unanchored) and any signal-module attribute'},
@@ -238,4 +388,7 @@ def plan(tier):
         Cond('c18_free', kind='hunt', shards=[{'maxlen': 3}] if q else [{'maxlen': 3}, {'maxlen': 4}, {'maxlen': 5}],
              budget=60 if q else 900, bounds={'s': 'R: any printable-ASCII string, len <= maxlen'}),
         Cond('c18_number', budget=60, bounds={'n': 'R: all integers'}),
+        Cond('c18_confinement', shards=[{'ps': i} for i in range(len(PIDSEL))], budget=240 if q else 1200, twins=2,
+             bounds={'command': 'S{signal, kill}', 'pid': 'S%r' % (PIDSEL,), 'childpid': 'S%r' % (CHILDSEL,), 'children,recursive': 'S{False, True}',
+                     'state': 'S%r' % (STATES,), 'signal': 'S%r' % (SIGS,), 'process tree': 'every worker has one child and one grandchild'}),
     ]
